@@ -48,5 +48,20 @@ func checkDefs() map[string]CheckDef {
 		BoundsText:  "parameter sets with 2 participants (3 in the variant family, 2..3 base in thorough), sim addresses with symbolic coordinates of K bytes (quick: exactly 1 byte; thorough: 0..1 bytes and exactly 2 bytes), nonce K bytes, symbolic challenge duration (non-zero), flags, app in {none, MockApp with symbolic definition}, aux bytes 0 and 255 symbolic; pairs: every single-field variant (incl. participant swap, one participant more) and independent pairs; validation boundaries concrete: 0,1,1024,1025 participants, nonce of exactly 32 and 33 bytes, duration symbolic",
 		Outside:     []string{"participants with several addresses (map iteration order)", "backends other than sim", "more than 3 participants in the injectivity obligations"},
 	})
+	add(CheckDef{
+		ID: "C02",
+		Obligations: []Obligation{
+			{Pkg: "internal/verifh/c02", Harness: "VerifC02Update", TV: 20},
+			{Pkg: "internal/verifh/c02", Harness: "VerifC02CheckUpdate", TV: 10},
+			{Pkg: "internal/verifh/c02", Harness: "VerifC02Init", TV: 20},
+			{Pkg: "internal/verifh/c02", Harness: "VerifC02Limits", TV: 6},
+		},
+		Assumptions: append(append([]string{}, commonAssumptions...),
+			"the current state ranges over all well-formed states of the channel (an over-approximation of the states reachable by accepted updates; closure under accepted updates is asserted)",
+			"payment app: candidate and initial data is NoData (the app documents a panic for other data, tested by the repository's TestApp_ValidTransition/panic)",
+			"reference predicate refSuccessor/refInit: DESIGN.md Appendix A.1 (per-asset backend ids are not part of it)"),
+		BoundsText: "channel with 2 participants, app in {NoApp, payment, MockApp(OpValid)}; current state: 1..2 assets, 0..1 sub-allocations, unbounded non-negative amounts, symbolic version/final flag/asset ids; candidate: 13 shape variants relative to the current state (same; one asset more/less; rows != assets; participant columns 0, N-1, N+1; ragged last row shorter/longer; one sub-allocation more/less; sub-allocation with one balance too many), every leaf symbolic: all 32 ID bytes, version, final flag, app definition (same kind) or another app kind, asset ids, amounts unbounded integers of either sign, actor any uint16; limits at exactly 1024/1025 assets, participants and sub-allocations",
+		Outside:    []string{"ActionMachine", "more than 2 participants / 2 assets in the current state", "apps other than the three named"},
+	})
 	return defs
 }
